@@ -435,7 +435,11 @@ def check3(part, fa, dtname, X, Y, Z, what=("3sum", "mul_add", "fma"), route="ve
                     zz = Z == 0
                     if fo:
                         dom_f = fin
-                        classes = (("normal-range", fin & ~underflow & ~dek_ovf), ("dekker-overflow-fallback", fin & dek_ovf), ("product-underflows,z!=0", fin & underflow & ~zz), ("product-underflows,z==0", fin & underflow & zz))
+                        # the documented fallback (x*y, 0) of an internally overflowing Dekker product is finite but inexact; a non-finite
+                        # result there is a different failure (the guard did not fire) and is classified separately
+                        nonfin = ~np.isfinite(r)
+                        classes = (("normal-range", fin & ~underflow & ~dek_ovf), ("dekker-overflow-fallback", fin & dek_ovf & ~nonfin), ("dekker-overflow-guard-missed:non-finite-result", fin & dek_ovf & nonfin),
+                                   ("product-underflows,z!=0", fin & underflow & ~zz), ("product-underflows,z==0", fin & underflow & zz))
                     else:
                         # documented: without fix_overflow an overflow inside Dekker's product / 2Sum gives nan -> outside the domain
                         dom_f = fin & ~near_ovf
